@@ -214,6 +214,7 @@ func c04(tier string) []*explore.Scenario {
 	for _, way := range []string{"first-message", "sendheader", "with-trailer"} {
 		out = append(out, c04HeaderRace(way, 2))
 	}
+	out = append(out, handlerSeqs("C04", tier)...)
 	return out
 }
 
